@@ -93,6 +93,10 @@ def run(ctx):
         vals = sd.values_at(IN, keys, n, 'wf_ex.state')
         r2.check(S['PAUSED'] not in vals, ctx.construct(rw, c),
                  'rerun reaches a PAUSED workflow', ctx.loc(rw, c))
+        need = {S['ERROR'], S['CANCELLED'], S['RUNNING']}
+        r2.check(need <= vals, ctx.construct(rw, extra='rerun admitted'),
+                 'rerun does not reach workflows in %s'
+                 % sorted(need - vals), ctx.loc(rw, c))
     for name, mk in (('rerun_tasks', 'RunExistingTask'),
                      ('skip_tasks', 'SkipTask')):
         f = prog.func(WC + '.' + name)
@@ -258,11 +262,16 @@ def run(ctx):
     cfg = ctx.cfg(pv)
     IN, keys = sd.analyze(cfg, pv, [('task_ex.state', sd.state_domain)])
     gp = U.calls_in(cfg, 'get_publish')
-    r4.check(bool(gp) and S['SKIPPED'] in
-             sd.values_at(IN, keys, gp[0][0], 'task_ex.state'),
+    pvals = sd.values_at(IN, keys, gp[0][0], 'task_ex.state') if gp \
+        else set()
+    r4.check(bool(gp) and S['SKIPPED'] in pvals,
              ctx.construct(pv, extra='SKIPPED publishes'),
              'SKIPPED tasks do not publish (publish-on-skip is ignored)',
              ctx.loc(pv))
+    r4.check({S['SUCCESS'], S['ERROR']} <= pvals,
+             ctx.construct(pv, extra='SUCCESS and ERROR publish'),
+             'tasks ending in %s do not publish'
+             % sorted({S['SUCCESS'], S['ERROR']} - pvals), ctx.loc(pv))
     tg = prog.func('mistral.lang.v2.tasks.TaskSpec.get_publish')
     cfg = ctx.cfg(tg)
     IN, keys = sd.analyze(cfg, tg, [('state', sd.state_domain)],
